@@ -10,12 +10,14 @@ import (
 	"math/rand"
 	"os"
 	"path/filepath"
+	"regexp"
 	"runtime"
 	"sort"
 	"strings"
 	"sync"
 	"sync/atomic"
 	"syscall"
+	"time"
 
 	oci "github.com/opencontainers/runtime-spec/specs-go"
 	"tags.cncf.io/container-device-interface/pkg/cdi"
@@ -57,7 +59,9 @@ func (w *c11World) specFiles(dir string) (spec, other []string) {
 	return
 }
 
-var c11OpKinds = []string{"create-by-write", "touch", "rewrite-in-place", "append", "tmp-rename-inside", "rename-in-from-outside", "hardlink-in", "rename-away", "rename-to-non-spec", "rename-from-non-spec", "unlink", "mkdir-missing", "rmdir-with-content", "recreate-dir", "create-invalid", "chmod", "truncate", "truncate", "rmdir-recreate", "rmdir-recreate", "symlink-in", "symlink-dangling", "symlink-rename-in", "rename-dir-away", "rename-dir-away-recreate", "populated-dir-appears", "populated-dir-appears"}
+var c11OpKinds = []string{"create-by-write", "touch", "rewrite-in-place", "append", "tmp-rename-inside", "rename-in-from-outside", "hardlink-in", "rename-away", "rename-to-non-spec", "rename-from-non-spec", "unlink", "mkdir-missing", "rmdir-with-content", "recreate-dir", "create-invalid", "chmod", "truncate", "truncate", "rmdir-recreate", "rmdir-recreate", "symlink-in", "symlink-dangling", "symlink-rename-in", "rename-dir-away", "rename-dir-away-recreate", "populated-dir-appears", "populated-dir-appears", "replace-same-size-and-time", "replace-same-size-and-time"}
+
+var reSameSize = regexp.MustCompile(`=v\d+`)
 
 // do performs one operation; it returns "" when it is not applicable now.
 func (w *c11World) do(kind string) (desc string) {
@@ -130,6 +134,34 @@ func (w *c11World) do(kind string) (desc string) {
 		}
 		f.Close()
 		return "touch " + p
+	case "replace-same-size-and-time":
+		// another definition, staged elsewhere with the size, the mode and the timestamps of
+		// the file it replaces, renamed over it (a restore from a backup, rsync --times)
+		var regular []string
+		for _, n := range specs {
+			if !strings.HasPrefix(n, "ln") {
+				regular = append(regular, n)
+			}
+		}
+		if len(regular) == 0 {
+			return ""
+		}
+		p := filepath.Join(dir, regular[r.Intn(len(regular))])
+		old, err := os.ReadFile(p)
+		st, err2 := os.Stat(p)
+		loc := reSameSize.FindIndex(old)
+		if err != nil || err2 != nil || loc == nil {
+			return ""
+		}
+		repl := append([]byte{}, old...)
+		d := repl[loc[1]-1]
+		repl[loc[1]-1] = '0' + (d-'0'+1+byte(r.Intn(8)))%10
+		tmp := filepath.Join(w.staging, fmt.Sprintf("same%d", w.n))
+		w.n++
+		must(os.WriteFile(tmp, repl, st.Mode().Perm()))
+		must(os.Chtimes(tmp, st.ModTime(), st.ModTime()))
+		must(os.Rename(tmp, p))
+		return "replace (same size, mode and mtime, another value) " + p
 	case "rewrite-in-place":
 		if len(specs) == 0 {
 			return ""
@@ -404,6 +436,101 @@ func checkC11(c *Ctx) {
 		}
 	})
 	c.Floor("changes_seen_through_a_watcherless_cache", 50)
+	// a query while the watcher goroutine is in the middle of a rescan: the watcher is
+	// held inside its directory scan, past a configured directory that is still missing;
+	// the directory appears (populated) and a query is made; then the watcher goes on.
+	// Whoever finishes last, the cache ends up with the directory's devices
+	if c.replayCase == "" || strings.HasPrefix(c.replayCase, "midscan") {
+		c.RunCases("midscan", c.pick(30, 400), 4, func(cs *Case) {
+			r := cs.R
+			root := filepath.Join(c.Scratch, sanitize(cs.Name))
+			anchor, late, d0 := filepath.Join(root, "anchor"), filepath.Join(root, "late"), filepath.Join(root, "d0")
+			staging := filepath.Join(root, "staging", "late")
+			for _, d := range []string{anchor, d0, staging} {
+				must(os.MkdirAll(d, 0o755))
+			}
+			defer os.RemoveAll(root)
+			mk := func(kind, dev string) []byte {
+				return []byte(fmt.Sprintf(`{"cdiVersion":"0.6.0","kind":"%s","devices":[{"name":"%s","containerEdits":{"env":["D=%s"]}}]}`, kind, dev, dev))
+			}
+			must(os.WriteFile(filepath.Join(d0, "a.json"), mk("vendor.com/gpu", "a"), 0o644))
+			must(os.WriteFile(filepath.Join(d0, "b.json"), mk("vendor.com/gpu", "b"), 0o644))
+			must(os.WriteFile(filepath.Join(staging, "x.json"), mk("late.org/dev", "x"), 0o644))
+			all := []string{anchor, late, d0} // the missing directory comes before the one the watcher is held in
+			var armed atomic.Bool
+			inScan, release := make(chan struct{}, 1), make(chan struct{})
+			var refreshEnds atomic.Int64
+			unhook := hookPrefix(root, func(point, arg string, _ int) {
+				if point == "refresh.end" {
+					refreshEnds.Add(1)
+				}
+				if point == "scan.beforeRead" && strings.HasPrefix(arg, d0+"/") && armed.CompareAndSwap(true, false) {
+					inScan <- struct{}{}
+					select {
+					case <-release:
+					case <-time.After(5 * time.Second):
+					}
+				}
+			})
+			defer unhook()
+			a, err := newAutoCache(root, anchor, all)
+			if err != nil {
+				c.Inconclusive("no-inotify")
+				return
+			}
+			defer a.Close()
+			a.C.ListDevices()
+			armed.Store(true)
+			// one single event that makes the watcher rescan (a file renamed into place; a
+			// second event would mean a second rescan, which would paper over the first)
+			must(os.WriteFile(filepath.Join(root, "staging", "c.json"), mk("vendor.com/gpu", "c"), 0o644))
+			must(os.Rename(filepath.Join(root, "staging", "c.json"), filepath.Join(d0, "c.json")))
+			select {
+			case <-inScan:
+			case <-time.After(20 * time.Second):
+				armed.Store(false)
+				close(release)
+				c.Inconclusive("watcher-not-held")
+				return
+			}
+			// the missing directory appears, populated (mkdir + write, or renamed into place)
+			if chance(r, 50) {
+				must(os.Rename(staging, late))
+			} else {
+				must(os.MkdirAll(late, 0o755))
+				must(os.WriteFile(filepath.Join(late, "x.json"), mk("late.org/dev", "x"), 0o644))
+			}
+			answered := make(chan []string, 1)
+			go func() { answered <- a.C.ListDevices() }()
+			select {
+			case <-answered: // (the query did not have to wait for the watcher)
+				c.Count("queries_answered_while_the_watcher_was_held_in_a_scan", 1)
+				answered <- nil
+			case <-time.After(time.Duration(50+r.Intn(250)) * time.Millisecond):
+			}
+			ends := refreshEnds.Load()
+			close(release)
+			<-answered
+			c.Count("queries_made_while_the_watcher_was_held_in_a_scan", 1)
+			// (no sentinel here: any event makes the watcher rescan everything and would paper
+			// over what this is about. The held rescan is given time to put its result in place;
+			// queries wait for the cache lock anyway)
+			for i := 0; i < 200 && refreshEnds.Load() == ends; i++ {
+				time.Sleep(50 * time.Millisecond)
+			}
+			time.Sleep(100 * time.Millisecond)
+			fresh, _ := cdi.NewCache(cdi.WithSpecDirs(all...), cdi.WithAutoRefresh(false))
+			want, _ := cacheState(fresh, all)
+			got, _ := cacheState(a.C, all)
+			if got != want {
+				got, _ = cacheState(a.C, all)
+			}
+			if got != want {
+				cs.Violation("no-convergence", map[string]string{"last_op": "populated-dir-appears", "observed": "queries", "pacing": "query during the watcher's rescan"}, fmt.Sprintf("a configured directory appeared (populated) and a query was made while the watcher goroutine was in the middle of a rescan, past that directory; after the watcher drained, two rounds of queries still differ from a fresh cache\n cache %s\n fresh %s", clip(got, 1200), clip(want, 1200)), map[string]any{"events": a.EventTrace()})
+			}
+		})
+		c.Floor("queries_made_while_the_watcher_was_held_in_a_scan", 10)
+	}
 	c.RunCases("hist", c.pick(700, 12000), 4, func(cs *Case) {
 		r := cs.R
 		root := filepath.Join(c.Scratch, sanitize(cs.Name))
